@@ -1,7 +1,7 @@
 (* C12: proofs about the instance model — replaying the saved dependency list rebuilds every input port
    (array ports in index order, for any number of connections), parameter records survive, the invariant
    of reachable states is preserved by every editing operation, and the headline theorems. *)
-From Coq Require Import String Ascii.
+From Coq Require Import String Ascii FinFun.
 From PF Require Import Base.Bytes Graph.Schema Graph.SchemaProofs Graph.Instance.
 Open Scope N_scope.
 
@@ -723,3 +723,170 @@ Qed.
 
 Theorem run_valid T h : table_ok T -> valid T (run T h).
 Proof. intros HT. apply run_from_valid; [exact HT | apply valid_empty]. Qed.
+
+(* ------------------------------------------------------------------------------------------------ *)
+(* 5. headline theorems                                                                              *)
+(* ------------------------------------------------------------------------------------------------ *)
+
+(* after ANY edit history: loading the saved graph gives back the same instance (ids, types, wiring with
+   array order, parameter records, producers, metadata) *)
+Theorem reload_same T h :
+  table_ok T -> no_overread T (i_nodes (run T h)) ->
+  decode T (encode T (run T h)) = Some (run T h).
+Proof. intros HT Hno. apply reload_valid; auto. apply run_valid, HT. Qed.
+
+(* ... and saving the reloaded instance reproduces the saved schema *)
+Theorem resave_same T h s' :
+  table_ok T -> no_overread T (i_nodes (run T h)) ->
+  decode T (encode T (run T h)) = Some s' -> encode T s' = encode T (run T h).
+Proof. intros HT Hno H. rewrite reload_same in H by assumption. injection H as <-. reflexivity. Qed.
+
+(* anything computed from the instance alone (artifacts of deterministic nodes) agrees before and after *)
+Theorem artifacts_same T h s' {A} (artifact : inst -> A) :
+  table_ok T -> no_overread T (i_nodes (run T h)) ->
+  decode T (encode T (run T h)) = Some s' -> artifact s' = artifact (run T h).
+Proof. intros HT Hno H. rewrite reload_same in H by assumption. injection H as <-. reflexivity. Qed.
+
+(* a graph without File parameters never over-reads *)
+Lemma no_file_no_overread T l :
+  Forall (fun e : id * node => file_payload T (snd e) = false) l -> no_overread T l.
+Proof. induction 1 as [|e l He Hl IH]; cbn; [exact I|]. split; [congruence | exact IH]. Qed.
+
+(* KEY LEMMA, list form: sorting the names field.k0, field.k0+1, ... with the repaired comparator leaves
+   them in index order, for any number of connections *)
+Lemma sort_arr_index_order f : forall l k0, sort_deps dep_less (enum_arr f k0 l) = enum_arr f k0 l.
+Proof.
+  induction l as [|x l IH]; intros k0; [reflexivity|].
+  unfold sort_deps in *. cbn [enum_arr isort]. rewrite IH.
+  destruct l as [|y l]; [reflexivity|]. cbn [enum_arr insert d_name].
+  rewrite dep_less_arr. replace (k0 <? k0 + 1) with true by (symmetry; apply N.ltb_lt; lia). reflexivity.
+Qed.
+
+(* ---- the id allocation rule yields a fresh id ---- *)
+Lemma node_id_inj a b : node_id a = node_id b -> a = b.
+Proof. unfold node_id. cbn. intros H. injection H as H. apply dec_inj, H. Qed.
+
+Lemma alloc_from_taken used : forall fuel k,
+  In (alloc_from fuel k used) used ->
+  forall j, (j <= fuel)%nat -> In (node_id (k + N.of_nat j)) used.
+Proof.
+  induction fuel as [|fuel IH]; intros k H j Hj.
+  - assert (j = 0%nat) by lia. subst. cbn in *. rewrite N.add_0_r. exact H.
+  - cbn [alloc_from] in H. destruct (mem (node_id k) used) eqn:E.
+    + destruct j as [|j]; [rewrite N.add_0_r; apply mem_In, E|].
+      specialize (IH (k + 1) H j ltac:(lia)). replace (k + N.of_nat (S j)) with (k + 1 + N.of_nat j) by lia. exact IH.
+    + apply mem_In in H. congruence.
+Qed.
+
+Theorem alloc_fresh used : ~ In (alloc used) used.
+Proof.
+  intros H. unfold alloc in H.
+  pose proof (alloc_from_taken used _ _ H) as Hall.
+  set (n := length used) in *.
+  set (cands := map (fun j => node_id (N.of_nat n + N.of_nat j)) (seq 0 (S (S n)))).
+  assert (Hnd : NoDup cands).
+  { apply Injective_map_NoDup; [|apply seq_NoDup].
+    intros a b Hab. apply node_id_inj in Hab. lia. }
+  assert (Hincl : incl cands used).
+  { intros x Hx. apply in_map_iff in Hx. destruct Hx as (j & <- & Hj). apply in_seq in Hj. apply Hall. lia. }
+  pose proof (NoDup_incl_length Hnd Hincl) as Hlen. unfold cands in Hlen. rewrite map_length, seq_length in Hlen.
+  subst n. clear - Hlen. unfold id in *. lia.
+Qed.
+
+(* ---- decidable table well-formedness ---- *)
+Fixpoint nodupb (l : list string) : bool :=
+  match l with [] => true | x :: r => negb (mem x r) && nodupb r end.
+Lemma nodupb_sound l : nodupb l = true -> NoDup l.
+Proof.
+  induction l as [|x l IH]; cbn; intros H; constructor; apply andb_prop in H; destruct H as [A B]; auto.
+  intros Hin. apply mem_In in Hin. rewrite Hin in A. discriminate.
+Qed.
+
+Definition par_okb (k : pkind) (r0 r : prec) : bool :=
+  match k with
+  | PNone => false
+  | PValue => match pr_def r, pr_val r with Some _, Some _ => true | _, _ => false end
+  | _ => match pr_def r, pr_def r0, pr_val r0, pr_val r with
+         | None, None, None, None => true
+         | None, None, None, Some (JBytes _) => true
+         | _, _, _, _ => false
+         end
+  end.
+Lemma par_okb_sound k r0 r : par_okb k r0 r = true -> par_ok k r0 r.
+Proof.
+  unfold par_okb, par_ok. destruct k; try discriminate.
+  - destruct (pr_def r), (pr_val r); try discriminate. intros _. split; eexists; reflexivity.
+  - destruct (pr_def r), (pr_def r0), (pr_val r0); try discriminate.
+    destruct (pr_val r) as [[]|]; try discriminate; intros _; repeat split; auto. right. eexists. reflexivity.
+  - destruct (pr_def r), (pr_def r0), (pr_val r0); try discriminate.
+    destruct (pr_val r) as [[]|]; try discriminate; intros _; repeat split; auto. right. eexists. reflexivity.
+Qed.
+
+Definition ty_okb (t : ty) : bool :=
+  nodupb (map p_name (t_ports t)) && forallb (fun p => no_dot (p_name p)) (t_ports t)
+  && match t_def t with Some r0 => par_okb (t_kind t) r0 r0 | None => true end.
+Definition table_okb (T : table) : bool := forallb ty_okb T.
+
+Lemma table_okb_sound T : table_okb T = true -> table_ok T.
+Proof.
+  unfold table_okb, table_ok. intros H. apply Forall_forall. intros t Ht.
+  eapply forallb_forall in H; [|exact Ht]. unfold ty_okb in H.
+  apply andb_prop in H. destruct H as [H C]. apply andb_prop in H. destruct H as [A B].
+  split; [apply nodupb_sound, A|]. split.
+  - apply Forall_forall. intros p Hp. eapply forallb_forall in B; [|exact Hp]. exact B.
+  - destruct (t_def t); [apply par_okb_sound, C | exact I].
+Qed.
+
+(* ------------------------------------------------------------------------------------------------ *)
+(* 6. witnesses: what goes wrong without the repairs                                                 *)
+(* ------------------------------------------------------------------------------------------------ *)
+
+(* a two-type factory: a float parameter and a node with one array input *)
+Definition demo_table : table :=
+  [ mkty [] 1 PValue false (Some (mkprec "" "" (Some (JInt 0)) (Some (JInt 0)) None));
+    mkty [P "Values" true 1] 1 PNone false None;
+    mkty [] 10 PFile false (Some (mkprec "" "" None None None)) ].
+
+Lemma demo_table_ok : table_ok demo_table.
+Proof. apply table_okb_sound. vm_compute. reflexivity. Qed.
+
+(* create the array node, then k parameters, each connected to the next index *)
+Fixpoint connect_many (k : nat) (from : N) : list op :=
+  match k with
+  | O => []
+  | S k' => OCreate 0 :: OConnect (node_id from) (node_id 0) (arr_name "Values" (from - 1)) :: connect_many k' (from + 1)
+  end.
+Definition eleven : list op := OCreate 1 :: connect_many 11 1.
+
+Definition wiring_of (o : option inst) : list (list (list id)) :=
+  match o with Some s => map (fun e => n_in (snd e)) (i_nodes s) | None => [] end.
+
+(* the pinned comparator (lower-cased lexicographic): with 11 connections on one array input the reload
+   permutes them ("Values.10" sorts before "Values.2") *)
+Theorem lexicographic_sort_refuted_witness :
+  decode demo_table (encode_pinned demo_table (run demo_table eleven)) <> Some (run demo_table eleven).
+Proof.
+  intros H. apply (f_equal wiring_of) in H. vm_compute in H. discriminate H.
+Qed.
+
+(* ... while the repaired comparator reloads the very same history exactly (instance of reload_same) *)
+Example eleven_reloads :
+  decode demo_table (encode demo_table (run demo_table eleven)) = Some (run demo_table eleven).
+Proof.
+  apply reload_same; [apply demo_table_ok|]. vm_compute. repeat split; intros; discriminate.
+Qed.
+
+(* the File over-read of the jbtf dependency: two File parameters, the first reloads with the second's bytes
+   appended *)
+Definition two_files : list op :=
+  [OCreate 2; OCreate 2; OUpdate (node_id 0) (JBytes [65; 65; 65]); OUpdate (node_id 1) (JBytes [66; 66])].
+
+Theorem file_overread_refuted_witness :
+  decode demo_table (encode demo_table (run demo_table two_files)) <> Some (run demo_table two_files)
+  /\ ~ no_overread demo_table (i_nodes (run demo_table two_files)).
+Proof.
+  split.
+  - intros H. apply (f_equal (fun o => match o with Some s => map (fun e => n_par (snd e)) (i_nodes s) | None => [] end)) in H.
+    vm_compute in H. discriminate H.
+  - vm_compute. intros [H _]. specialize (H eq_refl). discriminate H.
+Qed.
